@@ -284,6 +284,9 @@ func runC09(c *Ctx) {
 	c.Emit("member", "VBucketDiscovery.Get() range vs Chunk.member_range", im, "N * N * N * (N * N)", "chk_member", mem, memR, 500)
 	// the file backend holds the checkpoints of vBuckets that left the range: the member still streams exactly its chunk
 	runC04File(c)
+	// ... and agree on the group size: a leader-assigned group that grows and shrinks (real serviceDiscovery.SetInfo, real
+	// kubernetesHa membership behind the real vBucketDiscovery) is an exact partition after every step
+	runHaGroup(c)
 }
 
 func minInt(a, b int) int {
